@@ -32,6 +32,13 @@ func runC15(c *fw.C) {
 	r := c.R
 	cfg := pickCfg(r)
 	cfg.Cache = "none"
+	// writerCache: the versions are persisted by a writer that uses a NodeCache;
+	// the new side of the diff is that writer's live tree (its nodes come out of
+	// the cache), the old side is opened without any cache
+	writerCache := c.Idx%20 != 7 && fw.Mix(c.Seed, uint64(c.Idx), 77)%4 == 0 // not drawn from c.R: the pinned cases depend on its stream
+	if writerCache {
+		cfg.Cache = "big"
+	}
 	var p *pair
 	var err error
 	large := c.Idx%20 == 7
@@ -96,13 +103,19 @@ func runC15(c *fw.C) {
 		}
 	}
 	// fresh handles opened from the roots
-	ot, err := e.Load(p.Old.Root)
+	cold := *e
+	cold.Cache = nil
+	ot, err := cold.Load(p.Old.Root)
 	if err != nil {
 		return
 	}
-	nt, err := e.Load(p.New.Root)
+	nt, err := cold.Load(p.New.Root)
 	if err != nil {
 		return
+	}
+	if writerCache {
+		nt = p.New.T // persisted and re-opened through the writer's cache
+		c.Obs("pairs_new_side_through_writer_cache", 1)
 	}
 	if D == 0 {
 		c.Obs("pairs_d0", 1)
